@@ -43,7 +43,7 @@ theorem skipBlankInline_of_ne {s : Src} {q : Nat} (h : s[q]? ≠ some 32) : skip
   | succ n => simp [skipBlankInlineGo, h]
 
 theorem skipBlankBlockGo_LS (s : Src) (n p c : Nat) :
-    (skipBlankBlockGo s n p c).1 = p ∨ LS s (skipBlankBlockGo s n p c).1 := by
+    (skipBlankBlockGo s n p c).1 = p ∨ LS s (skipBlankBlockGo s n p c).1 ∨ s.size ≤ (skipBlankBlockGo s n p c).1 := by
   induction n generalizing p c with
   | zero => left; rfl
   | succ n ih =>
@@ -51,30 +51,35 @@ theorem skipBlankBlockGo_LS (s : Src) (n p c : Nat) :
     split
     · rename_i p' h
       right
-      rcases ih p' (c + 1) with h1 | h1
-      · rw [h1]; exact skipEol_LS h
-      · exact h1
-    · left; rfl
+      rcases ih p' (c + 1) with h1 | h1 | h1
+      · rw [h1]; exact Or.inl (skipEol_LS h)
+      · exact Or.inl h1
+      · exact Or.inr h1
+    · split
+      · left; rfl
+      · right; right; simp only []; omega
 
 /-- `skip_blank_block` turns every cursor an entry parser can leave behind into a line start (or EOF) -/
 theorem skipBlankBlock_LSE {s : Src} {q : Nat} (h : NextOk s q) : LSE s (skipBlankBlock s q).1 := by
   rcases h with h | h | h
-  · rcases skipBlankBlockGo_LS s (s.size - q + 1) q 0 with h1 | h1
+  · rcases skipBlankBlockGo_LS s (s.size - q + 1) q 0 with h1 | h1 | h1
     · unfold skipBlankBlock; rw [h1]; exact Or.inl h
     · exact Or.inl h1
-  · rcases skipBlankBlockGo_LS s (s.size - q + 1) q 0 with h1 | h1
+    · exact Or.inr h1
+  · rcases skipBlankBlockGo_LS s (s.size - q + 1) q 0 with h1 | h1 | h1
     · unfold skipBlankBlock; rw [h1]; exact Or.inr h
     · exact Or.inl h1
-  · left
-    unfold skipBlankBlock
+    · exact Or.inr h1
+  · unfold skipBlankBlock
     simp only [skipBlankBlockGo]
     have h32 : s[q]? ≠ some 32 := by rw [h]; decide
     rw [skipBlankInline_of_ne h32]
     have he : skipEol s q = some (q + 1) := by simp [skipEol, h]
     simp only [he]
-    rcases skipBlankBlockGo_LS s (s.size - q) (q + 1) 1 with h1 | h1
-    · rw [h1]; exact LS_succ h
-    · exact h1
+    rcases skipBlankBlockGo_LS s (s.size - q) (q + 1) 1 with h1 | h1 | h1
+    · rw [h1]; exact Or.inl (LS_succ h)
+    · exact Or.inl h1
+    · exact Or.inr h1
 
 /-! ### positions where a message or term can start -/
 
@@ -149,7 +154,9 @@ theorem skipBlankBlockGo_noRS (s : Src) (n p c : Nat) : NoRS s p (skipBlankBlock
     split
     · rename_i p' h
       exact ((skipBlankInline_noRS s p).trans (skipEol_noRS h)).trans (ih p' (c + 1))
-    · exact NoRS.refl _ _
+    · split
+      · exact NoRS.refl _ _
+      · exact skipBlankInline_noRS s p
 
 theorem skipBlankBlock_noRS (s : Src) (p : Nat) : NoRS s p (skipBlankBlock s p).1 :=
   skipBlankBlockGo_noRS s _ p 0
@@ -417,11 +424,11 @@ theorem placeable_mono_step {s : Src} {n : Nat} (IH : MSpecs s n) (p : Nat) : Mo
 
 theorem pattern_mono_step {s : Src} {n : Nat} (IH : MSpecs s n) (p : Nat) : Mono p (getPattern s (n + 1) p) := by
   have key : ∀ role p2, p ≤ p2 →
-      Mono p (match getPatternLoop s n ⟨[], none, none, role⟩ p2 with
+      Mono p (match getPatternLoop s n ⟨[], none, none, role, none⟩ p2 with
         | .ok st q =>
           (match st.lastNonBlank with
            | some lnb =>
-             (match finishElements s st.commonIndent lnb 0 st.elements with
+             (match finishElements s st.keptCommonIndent lnb 0 st.elements with
               | some els => .ok (some els) q
               | none => .panic "get_pattern slice")
            | none => .ok none q)
@@ -429,7 +436,7 @@ theorem pattern_mono_step {s : Src} {n : Nat} (IH : MSpecs s n) (p : Nat) : Mono
         | .panic m => .panic m
         | .fuel => .fuel) := by
     intro role p2 hle
-    rcases (IH.patternLoop ⟨[], none, none, role⟩ p2).cases with ⟨st, q, hr, h1⟩ | ⟨e, q, hr, h1⟩ | ⟨m, hr⟩ | hr <;>
+    rcases (IH.patternLoop ⟨[], none, none, role, none⟩ p2).cases with ⟨st, q, hr, h1⟩ | ⟨e, q, hr, h1⟩ | ⟨m, hr⟩ | hr <;>
       simp only [hr] <;> try mono_close
     split
     · split <;> mono_close
@@ -756,11 +763,11 @@ theorem getPattern_LSE {s : Src} {n p : Nat} {o : Option (Pattern Span)} {q : Na
   | zero => simp [getPattern] at h
   | succ n =>
     have key : ∀ role p2, (role = .lineStart → NextOk s p2) →
-        (match getPatternLoop s n ⟨[], none, none, role⟩ p2 with
+        (match getPatternLoop s n ⟨[], none, none, role, none⟩ p2 with
           | .ok st q =>
             (match st.lastNonBlank with
              | some lnb =>
-               (match finishElements s st.commonIndent lnb 0 st.elements with
+               (match finishElements s st.keptCommonIndent lnb 0 st.elements with
                 | some els => .ok (some els) q
                 | none => .panic "get_pattern slice")
              | none => .ok none q)
